@@ -1,5 +1,7 @@
 import Driver.Conv
 import Driver.Kv
+import Driver.Rt
+import Driver.Mw
 
 partial def loop (h : IO.FS.Stream) (out : IO.FS.Stream) (f : String → String) : IO Unit := do
   let line ← h.getLine
@@ -13,6 +15,9 @@ def dispatch : List String → Option (String → String)
   | ["oracle", "conv"] => some Driver.Conv.oracle
   | ["model", "kv"] => some Driver.Kv.model
   | ["oracle", "kv"] => some Driver.Kv.oracle
+  | ["model", "rt"] => some Driver.Rt.model
+  | ["model", "mw"] => some Driver.Mw.model
+  | ["oracle", "mw"] => some Driver.Mw.oracle
   | _ => none
 
 def main (args : List String) : IO UInt32 := do
